@@ -162,3 +162,43 @@ func verifHarnessC11Jitter() {
 	assert("ticker-stopped", tick.stopped)
 	reach("end")
 }
+
+// C11: the background loop — one poll per tick, the tick acknowledged, errors do not stop it, cancellation ends it with a flush.
+func verifHarnessC11RunLoop() {
+	verifEnvReset()
+	client := &verifClient{mayFail: true}
+	cache := &verifCache{}
+	s := verifSymStore(1, client, cache)
+	assume(verifStoreInv(s))
+	ticks := 0
+	maxTicks := param("ticks")
+	ctx := &verifCtx{tag: "poller"}
+	tk := &verifLoopTicker{}
+	tk.ch = envChanDyn[time.Time]("ticker", func() bool { return !ctx.cancelled }, func() { ticks++ })
+	s.newTicker = func(time.Duration) Ticker { return tk }
+	// the owner closes the store after some ticks
+	polls := 0
+	tk.onDone = func() {
+		polls++
+		if polls >= maxTicks || nondetBool("close.now") {
+			ctx.cancelled = true
+		}
+	}
+	done := make(chan struct{})
+	s.run(ctx, time.Hour, done)
+	assert("one-poll-per-tick", and(ghostCount("sf.dochan") == ticks, polls == ticks))
+	assert("ticker-stopped", tk.stopped)
+	assert("flushed-on-exit", ghostCount("cache.write.call") >= 1)
+	assert("lock-released", notHeld(&s.active.Mutex))
+	reach("end")
+}
+
+type verifLoopTicker struct {
+	ch      <-chan time.Time
+	stopped bool
+	onDone  func()
+}
+
+func (t *verifLoopTicker) Chan() <-chan time.Time { return t.ch }
+func (t *verifLoopTicker) Stop()                  { t.stopped = true }
+func (t *verifLoopTicker) Done()                  { t.onDone() }
